@@ -5,6 +5,7 @@ import (
 	"fmt"
 	"math/big"
 	"sync"
+	"unicode/utf8"
 
 	storageerrors "github.com/formancehq/ledger/internal/storage/sqlutils"
 
@@ -21,6 +22,32 @@ import (
 type Parameters struct {
 	DryRun         bool
 	IdempotencyKey string
+}
+
+// checkUTF8 refuses text that is not valid UTF-8 before it can reach a log entry (see errInvalidUTF8).
+func checkUTF8(what string, values ...string) error {
+	for _, value := range values {
+		if !utf8.ValidString(value) {
+			return NewErrInvalidUTF8(what)
+		}
+	}
+	return nil
+}
+
+func checkMetadataUTF8(m metadata.Metadata) error {
+	for key, value := range m {
+		if err := checkUTF8("metadata", key, value); err != nil {
+			return err
+		}
+	}
+	return nil
+}
+
+func checkTargetUTF8(targetID any) error {
+	if address, ok := targetID.(string); ok {
+		return checkUTF8("account address", address)
+	}
+	return nil
 }
 
 type Commander struct {
@@ -77,6 +104,16 @@ func (commander *Commander) exec(ctx context.Context, parameters Parameters, scr
 
 	if script.Script.Plain == "" {
 		return nil, NewErrNoScript()
+	}
+
+	if err := checkUTF8("script", script.Plain); err != nil {
+		return nil, err
+	}
+	if err := checkUTF8("reference", script.Reference); err != nil {
+		return nil, err
+	}
+	if err := checkMetadataUTF8(script.Metadata); err != nil {
+		return nil, err
 	}
 
 	if script.Timestamp.IsZero() {
@@ -189,6 +226,12 @@ func (commander *Commander) CreateTransaction(ctx context.Context, parameters Pa
 }
 
 func (commander *Commander) SaveMeta(ctx context.Context, parameters Parameters, targetType string, targetID interface{}, m metadata.Metadata) error {
+	if err := checkTargetUTF8(targetID); err != nil {
+		return err
+	}
+	if err := checkMetadataUTF8(m); err != nil {
+		return err
+	}
 	execContext := newExecutionContext(commander, parameters)
 	_, err := execContext.run(ctx, func(log *ledger.ChainedLog) bool {
 		payload, ok := log.Data.(ledger.SetMetadataLogPayload)
@@ -328,6 +371,12 @@ func (commander *Commander) allocateTXID(dryRun bool) *big.Int {
 }
 
 func (commander *Commander) DeleteMetadata(ctx context.Context, parameters Parameters, targetType string, targetID any, key string) error {
+	if err := checkTargetUTF8(targetID); err != nil {
+		return err
+	}
+	if err := checkUTF8("metadata key", key); err != nil {
+		return err
+	}
 	execContext := newExecutionContext(commander, parameters)
 	_, err := execContext.run(ctx, func(log *ledger.ChainedLog) bool {
 		payload, ok := log.Data.(ledger.DeleteMetadataLogPayload)
